@@ -453,6 +453,31 @@ pub fn run_c04(tier: &str) -> i32 {
                     }
                 }
             }
+            // local protocols, core layer: EVERY key that differs from the accepting key in its low 12 (thorough: 16)
+            // bits, against the shortest tokens (empty message and "{}": whatever a wrong key stream makes of
+            // them is still text, so nothing but the tag stands between the wrong key and acceptance). A tag
+            // comparison that lets through some fraction of wrong tags (a fold that cancels, a truncated or
+            // sampled comparison) is met by about that fraction of these keys.
+            if p.is_local() && *l == Layer::Core {
+                let nbits = if quick { 12 } else { 16 };
+                for (mi, m) in [String::new(), "{}".to_string()].iter().enumerate() {
+                    if quick && mi == 1 && !matches!(*p, Proto::V4L) {
+                        continue;
+                    }
+                    let case = IssueCase::new(*p, *l, base_key, seed.as_deref(), m, &None, &None);
+                    let Some(token) = issue_with_control(&case, &mut acc) else { continue };
+                    let n = base_key.pk.len();
+                    for d in 1u32..(1u32 << nbits) {
+                        let mut k = base_key.pk.clone();
+                        k[n - 1] ^= (d & 0xff) as u8;
+                        k[n - 2] ^= (d >> 8) as u8;
+                        let mut pres = Presentation::of(&case, &token);
+                        pres.pk_hex = b64::hex(&k);
+                        check("C04", "low-bits-neighbourhood-of-accepting-key", &case, &token, &pres, None, &mut acc);
+                        acc.choice_points += 1;
+                    }
+                }
+            }
             if *p == Proto::V3P {
                 // same x, other parity prefix
                 for k in &pool {
@@ -481,7 +506,7 @@ pub fn run_c04(tier: &str) -> i32 {
     finish(
         run,
         merged,
-        json!({"space": "protocol x layer x ordered pairs of pool keys x message x footer/assertion; all single-bit neighbours of the accepting key (local: both directions); P-384 other-parity point; one parser object parsing the same token under the right and a wrong key in both orders; v3.public: every other key recoverable from the token's own signature (reference-computed)",
+        json!({"space": "protocol x layer x ordered pairs of pool keys x message x footer/assertion; all single-bit neighbours of the accepting key (local: both directions); local, core layer: every key differing from the accepting key in its low 12 (thorough: 16) bits against the empty and the 2-byte message; P-384 other-parity point; one parser object parsing the same token under the right and a wrong key in both orders; v3.public: every other key recoverable from the token's own signature (reference-computed)",
                "distinct_rule": "distinct (token, presented key, footer, assertion, layer) presentations", "caps_hit": []}),
     )
 }
